@@ -79,7 +79,22 @@ def go_build(cmd, race=False, timeout=1500):
         args.append("-race")
     modfile = os.path.join(HARNESS, "go.mod")
     sumfile = os.path.join(HARNESS, "go.sum")
-    shutil.copyfile(os.path.join(REPO, "go.sum"), sumfile)
+    # (several checks may build at the same time: replace the file atomically and
+    # only when it differs)
+    src = os.path.join(REPO, "go.sum")
+    if not os.path.exists(src):          # go.sum is not tracked: scratch worktrees lack it
+        src = "/repo/go.sum"
+    with open(src, "rb") as f:
+        want = f.read()
+    have = None
+    if os.path.exists(sumfile):
+        with open(sumfile, "rb") as f:
+            have = f.read()
+    if have != want:
+        tmp = sumfile + ".%d" % os.getpid()
+        with open(tmp, "wb") as f:
+            f.write(want)
+        os.replace(tmp, sumfile)
     if os.path.realpath(REPO) != "/repo":
         alt = os.path.join(scratch(), "alt.mod")
         with open(modfile) as f:
@@ -87,7 +102,7 @@ def go_build(cmd, race=False, timeout=1500):
         txt = txt.replace("=> /repo", "=> " + os.path.realpath(REPO))
         with open(alt, "w") as f:
             f.write(txt)
-        shutil.copyfile(sumfile, os.path.join(scratch(), "alt.sum"))
+        shutil.copyfile(src, os.path.join(scratch(), "alt.sum"))
         args += ["-modfile", alt]
     args.append("./cmd/" + cmd)
     t0 = time.time()
